@@ -39,6 +39,10 @@ func vArgvFor(profile string) []string {
 	case "tmplmini":
 		// the well-formed core of the template: positional, `--`, short flag, valued option (separate and '=')
 		return vTemplateArgv(vParamInt("K"), vParamInt("Lp"), []int{shPos, shDD, shFlagShort, shValSep, shValEq, shValLongEq, shHelp})
+	case "long":
+		// long command lines over a small alphabet: positional, short flag, valued option with a
+		// separate value (1-byte payloads)
+		return vTemplateArgv(vParamInt("K"), 1, []int{shPos, shFlagShort, shValSep})
 	}
 	panic("unknown profile " + profile)
 }
